@@ -79,7 +79,7 @@ def run(ctx):
                                                        flags=("-DPAIRSET=%d" % k,)), range(3)))
     n_hist, length = (500, 10) if quick else (12000, 16)
     wd = ctx.workdir()
-    stats, opc, qc, pairc, polc = (collections.Counter() for _ in range(5))
+    stats, opc, qc, pairc, polc, okfalse = (collections.Counter() for _ in range(6))
     distinct, nontrivial, samples, total = set(), 0, [], 0
     summaries = []
     for k, h in enumerate(hs):
@@ -126,6 +126,15 @@ def run(ctx):
                 if v[0] == "skip":
                     stats["skip:" + v[1].split()[0]] += 1
                 elif v[0] == "MISMATCH":
+                    if v[1].startswith("OK() returned false"):
+                        # Partially_Reduced_Product::OK() re-reduces a copy and compares: it is false when the
+                        # `reduced' flag is stale (unconstrain / upper_bound / time_elapse do not clear it) or when
+                        # one pass of the reduction is not a fixpoint.  The denotation is unaffected: diagnostic only.
+                        site, tags, pair, pol = classify(lines, i, v[1])
+                        cause = [t for t in tags if t.startswith("reduced_flag_stale")]
+                        okfalse[(cause[0] if cause else "reduction_not_idempotent") + ":" + pol] += 1
+                        stats["MISMATCH"] -= 1
+                        continue
                     if len(ctx.violations) >= 25:
                         stats["mismatch_not_reported_individually"] += 1
                         continue
@@ -151,6 +160,7 @@ def run(ctx):
         "observations_mismatch": stats["MISMATCH"],
         "mismatch_not_reported_individually": stats["mismatch_not_reported_individually"],
         "observations_skipped": {k[5:]: v for k, v in stats.items() if k.startswith("skip:")},
+        "OK_false_diagnostics": dict(okfalse),
         "pair_histogram": dict(pairc), "policy_histogram": dict(polc),
         "op_histogram": dict(opc), "query_histogram": dict(qc), "driver_summaries": summaries,
     })
